@@ -617,6 +617,77 @@ def demsemCheck (toks : List String) : String :=
       | _ => "bad-request"
   | _ => "bad-request"
 
+/-- split an error's targets into its separator-delimited components -/
+def componentsOf (ts : List DTarget) : List (List DTarget) :=
+  let (groups, cur) := ts.foldl (fun (acc : List (List DTarget) × List DTarget) t =>
+    if t == .sep then (acc.1 ++ [acc.2], []) else (acc.1, acc.2 ++ [t])) ([], [])
+  groups ++ [cur]
+
+/-- canonical form of a component: sorted targets with cancelling duplicates removed -/
+def canonComponent (c : List DTarget) : List (Nat × Nat) :=
+  let key : DTarget → Nat × Nat := fun | .det k => (0, k) | .obs k => (1, k) | .sep => (2, 0)
+  let ks := c.map key
+  let odd := ks.eraseDups.filter fun k => (ks.filter (· == k)).length % 2 == 1
+  odd.mergeSort (fun a b => a.1 < b.1 || (a.1 == b.1 && a.2 ≤ b.2))
+
+/-- `demsem decomp <ignore_failures> <block_remnant> <dem>` — structural soundness of suggested decompositions (C10):
+    (iii) every component has at most two detectors unless failures were ignored; (iv) with remnant blocking every component of a
+    composite error also occurs elsewhere in the model. (The distribution and the XOR of the components are judged by `demsem check`.) -/
+def demsemDecomp (toks : List String) : String :=
+  match toks with
+  | ign :: blk :: rest =>
+    match parseDem rest with
+    | some (m, []) =>
+      let errs : List (List (List (Nat × Nat))) := m.flat.filterMap fun
+        | .error p _ ts => if ratOfBits p == 0 then none else some ((componentsOf ts).map canonComponent)
+        | _ => none
+      let tooBig := errs.any fun comps => comps.any fun c => (c.filter (·.1 == 0)).length > 2
+      if tooBig && ign != "1" then "component-with-more-than-two-detectors"
+      else if blk == "1" then
+        let idx := errs.zipIdx
+        let orphan := idx.findSome? fun (comps, i) =>
+          if comps.length < 2 then none else
+          comps.findSome? fun c =>
+            if c.isEmpty then none
+            else if idx.any (fun (other, j) => j != i && other.contains c) then none else some c
+        match orphan with
+        | some c => s!"remnant-component-not-elsewhere {c}"
+        | none => "ok"
+      else "ok"
+    | _ => "bad-request"
+  | _ => "bad-request"
+
+/-- `demsample check <dem> <k> (<errbits> <detbits> <obsbits>)*` — each shot's detection events and observable flips must be the XOR of
+    the targets of exactly the errors reported as fired (repeat blocks and shifts applied, separators ignored, duplicates cancel). -/
+def demsampleCheck (toks : List String) : String :=
+  match parseDem toks with
+  | some (m, kS :: rest) =>
+    match kS.toNat? with
+    | none => "bad-request"
+    | some k =>
+      if rest.length != 3 * k then "bad-request" else
+      let nd := m.countDetectors
+      let no := m.countObservables
+      let errs : List (List Bool) := m.flat.filterMap fun
+        | .error _ _ ts => some (errorVec (nd, no) ts)
+        | _ => none
+      let rec go : Nat → List String → String
+        | _, [] => "ok"
+        | i, e :: d :: o :: more =>
+          let eb := bitsOf e
+          if eb.length != errs.length then s!"shot {i} error-count {eb.length} vs {errs.length}" else
+          let acc := (errs.zip eb).foldl (fun acc (v, fired) => if fired then xorBits acc v else acc) (List.replicate (nd + no) false)
+          let db := bitsOf d
+          let ob := bitsOf o
+          if db.length != nd then s!"shot {i} detector-count {db.length} vs {nd}"
+          else if ob.length != no then s!"shot {i} observable-count {ob.length} vs {no}"
+          else if acc.take nd != db then s!"shot {i} detectors"
+          else if acc.drop nd != ob then s!"shot {i} observables"
+          else go (i + 1) more
+        | i, _ => s!"bad-request at {i}"
+      go 0 rest
+  | _ => "bad-request"
+
 def answer (toks : List String) : String :=
   match toks with
   | "tsim" :: "check" :: rest => tsimCheck rest
@@ -629,6 +700,8 @@ def answer (toks : List String) : String :=
   | "fsim" :: "shots" :: rest => fsimShots rest
   | "fsim" :: "m2d" :: rest => fsimM2d rest
   | "demsem" :: "check" :: rest => demsemCheck rest
+  | "demsem" :: "decomp" :: rest => demsemDecomp rest
+  | "demsample" :: "check" :: rest => demsampleCheck rest
   | "circ" :: "counts" :: rest => circCounts rest
   | "circ" :: "shift" :: rest => circShift rest
   | "circ" :: "detcoords" :: rest => circDetCoords rest
